@@ -5,8 +5,10 @@ import (
 	"verif/harness/internal/core"
 	_ "verif/harness/internal/engf"
 	_ "verif/harness/internal/engg"
+	_ "verif/harness/internal/engh"
+	_ "verif/harness/internal/engl"
 	_ "verif/harness/internal/engs"
-	// engines K, H and L are linked in once their checks are registered in MANIFEST.json
+	// engine K is linked in once its checks are registered in MANIFEST.json
 )
 
 func main() { core.Main() }
